@@ -161,9 +161,16 @@ def _check_main(ctx, res) -> None:
     folder = fold.get(ctx)
     folder.init_env[TF] = {"name": "NAME", "docs": False}
     try:
-        pat = folder.call_function(TF + "._get_occurrence_pattern", ["NAME"])
+        try:
+            pat = folder.call_function(TF + "._get_occurrence_pattern", ["NAME"])
+        except fold.Unfoldable:
+            # the pattern may be built in __init__ itself: fold the value of the instance attribute
+            tfc = idx.need_class(TF)
+            pat = folder.eval(tfc.unit.modname, ast.parse("self.pattern", mode="eval").body, {}, cls=tfc)
     except fold.Unfoldable as e:
         raise AnalysisError(f"occurrence pattern not foldable: {e}")
+    if not isinstance(pat, str):
+        raise AnalysisError("occurrence pattern did not fold to a string")
     res.analysed["occurrence_pattern_prefix"] = pat[:120]
     tree = sre_parse.parse(pat)
     names = {v: k for k, v in tree.state.groupdict.items()}
